@@ -1,5 +1,6 @@
-\* C16 gate machine, thorough tier: every hiding operation with one root selection and every
-\* mergeable pair of root selections (Big = TRUE). Measured: see notes/C16.md.
+\* C16 gate machine, thorough tier. Constants: Big = TRUE: every hiding operation with one root
+\* selection and every mergeable pair of root selections; extension installed or not.
+\* Measured: 19680 operations, 155040 states generated, 136160 distinct, depth 6, ~80-100 s.
 CONSTANTS
     Big = TRUE
     Schemas <- MCSchemas
